@@ -16,9 +16,9 @@ import (
 )
 
 type ReplayResult struct {
-	File       string `json:"file"`
-	Reproduced bool   `json:"reproduced"`
-	Output     string `json:"output"`
+	File       string            `json:"file"`
+	Reproduced bool              `json:"reproduced"`
+	Output     string            `json:"output"`
 	Inputs     map[string]string `json:"inputs,omitempty"`
 }
 
@@ -321,19 +321,19 @@ func runProperty(eng *Engine, o *Options, start time.Time) int {
 	ev := evidence{PropertyID: prop, Tier: o.Tier, Seed: o.Seed, Level: "proof", WallS: round3(time.Since(start).Seconds()), Violations: violations, Assumptions: asm}
 	ev.Coverage = map[string]any{
 		"obligations": nObl, "discharged": nDis, "known_findings": nKnown, "vacuity_covers": nCover,
-		"checker_cmd":              fmt.Sprintf("/verif/check %s %s", prop, o.Tier),
-		"trusted_base":             tb,
-		"functions_under_contract": funcsUnder,
-		"functions_checked":        len(results),
-		"by_backend":               byBackend,
-		"solver_time_s":            round3(solverTime),
-		"generation_time_s":        round3(genS),
-		"solve_wall_s":             round3(solveS),
-		"load_time_s":              round3(eng.loadTime),
-		"samples":                  samples,
-		"undecided":                undecided,
-		"not_modelled":             nts,
-		"timeout_s":                o.Timeout,
+		"checker_cmd":               fmt.Sprintf("/verif/check %s %s", prop, o.Tier),
+		"trusted_base":              tb,
+		"functions_under_contract":  funcsUnder,
+		"functions_checked":         len(results),
+		"by_backend":                byBackend,
+		"solver_time_s":             round3(solverTime),
+		"generation_time_s":         round3(genS),
+		"solve_wall_s":              round3(solveS),
+		"load_time_s":               round3(eng.loadTime),
+		"samples":                   samples,
+		"undecided":                 undecided,
+		"not_modelled":              nts,
+		"timeout_s":                 o.Timeout,
 		"solver_agreement_required": o.Agree,
 	}
 	if extra := extraEvidence[prop]; extra != nil {
